@@ -94,8 +94,8 @@ def after_load(ctx, old, new, info):
     if (old.schedule_history is None) != (new.schedule_history is None):
         probs.append("schedule_history presence changed")
     elif old.schedule_history is not None:
-        if sorted(old.schedule_history.keys()) != sorted(new.schedule_history.keys()):
-            probs.append("schedule_history keys %s -> %s" % (sorted(old.schedule_history), sorted(new.schedule_history)))
+        if sorted(old.schedule_history.keys(), key=repr) != sorted(new.schedule_history.keys(), key=repr):
+            probs.append("schedule_history keys %s -> %s" % (sorted(old.schedule_history, key=repr), sorted(new.schedule_history, key=repr)))
     if new.start != old.start:
         probs.append("start %s -> %s" % (old.start, new.start))
     info["problems"] = probs
@@ -168,7 +168,7 @@ def check(sc):
     ea = {k: v.energy_delivered for k, v in a.ev_history.items()}
     eb = {k: v.energy_delivered for k, v in b.ev_history.items()}
     if ea != eb:
-        out.add("C09/energies", "resumed %s uninterrupted %s" % (sorted(eb.items())[:6], sorted(ea.items())[:6]))
+        out.add("C09/energies", "resumed %s uninterrupted %s" % (sorted(eb.items(), key=repr)[:6], sorted(ea.items(), key=repr)[:6]))
     if a.peak != b.peak:
         out.add("C09/peak", "resumed %r uninterrupted %r" % (b.peak, a.peak))
     ha = sorted((e.timestamp, e.precedence, str(getattr(getattr(e, "ev", None), "session_id", None))) for e in a.event_history)
@@ -192,7 +192,7 @@ def check(sc):
         na = {int(k): {s: [float(x) for x in v] for s, v in d.items()} for k, d in a.schedule_history.items()}
         nb = {int(k): {s: [float(x) for x in v] for s, v in d.items()} for k, d in b.schedule_history.items()}
         if na != nb:
-            out.add("C09/schedule_history", "keys resumed %s uninterrupted %s" % (sorted(nb)[:12], sorted(na)[:12]))
+            out.add("C09/schedule_history", "keys resumed %s uninterrupted %s" % (sorted(nb, key=repr)[:12], sorted(na, key=repr)[:12]))
     # shared-object clause at the end as well
     for sid, ev_ in ({} if sc.get("dup_session_id") else b.ev_history).items():
         for e in b.event_history:
